@@ -80,6 +80,12 @@ func NewClient(krb5Cl *client.Client, httpCl *http.Client, spn string) *Client {
 
 // Do is the SPNEGO enabled HTTP client's equivalent of the http.Client's Do method.
 func (c *Client) Do(req *http.Request) (resp *http.Response, err error) {
+	return c.do(req, false)
+}
+
+// do sends the request. negotiated indicates that the request already carries the SPNEGO token created in
+// answer to the server's challenge: a further challenge is then the server's answer and is not retried.
+func (c *Client) do(req *http.Request, negotiated bool) (resp *http.Response, err error) {
 	var body bytes.Buffer
 	if req.Body != nil {
 		// Use a tee reader to capture any body sent in case we have to replay it again
@@ -101,12 +107,12 @@ func (c *Client) Do(req *http.Request) (resp *http.Response, err error) {
 					// Refresh the body reader so the body can be sent again
 					e.reqTarget.Body = io.NopCloser(&body)
 				}
-				return c.Do(e.reqTarget)
+				return c.do(e.reqTarget, false)
 			}
 		}
 		return resp, err
 	}
-	if respUnauthorizedNegotiate(resp) {
+	if respUnauthorizedNegotiate(resp) && !negotiated {
 		err := SetSPNEGOHeader(c.krb5Client, req, c.spn)
 		if err != nil {
 			return resp, err
@@ -117,7 +123,7 @@ func (c *Client) Do(req *http.Request) (resp *http.Response, err error) {
 		}
 		io.Copy(io.Discard, resp.Body)
 		resp.Body.Close()
-		return c.Do(req)
+		return c.do(req, true)
 	}
 	return resp, err
 }
